@@ -43,7 +43,10 @@ CFG = {
             "boundaries: Q model within 1e-9, sign vs closed-form membership (Coq), independent float reference "
             "(cone: golden-section search over the swept spheres), operators vs pointwise min/max of operand values, "
             "translate vs f(p-t); Lipschitz on explicit pairs (Coq) and dense harness-side batches (steps 1e-4..5); "
-            "exactness vs brute-force nearest surface point; distinct by input; non-trivial = every case",
+            "exactness vs a rigorous branch-and-bound enclosure of the distance to the surface; constructor side effects: "
+            "Union/Intersect/Subtract/Translate called in every order (steps may repeat) on ONE shared caller-owned operand "
+            "slice of 2-6 shapes, then every constructed field and every operand re-evaluated bit for bit against min/max of "
+            "separately built originals; distinct by input; non-trivial = every case",
     "trusted": ["tools/go2coq (translator, ~2600 lines of Go): validated on every run by vm_compute of the generated "
                 "definitions over Q against the implementation's values (exact on the dyadic stream, 1e-9 otherwise)",
                 "coq/theories/Geom/Vec.v prelude: transcription of github.com/EliCDavis/vector v1.8.0 methods",
